@@ -12,6 +12,8 @@ pub struct Config {
     pub basic: Option<(String, String)>,
     pub timeout_ms: Option<u64>,
     pub ignore_tls: Option<bool>,
+    /// further ignore_tls_errors() calls made on the same builder AFTER `ignore_tls` (the last call is the caller's word)
+    pub ignore_tls_then: Vec<bool>,
     pub ca_certs: Vec<Vec<u8>>,
 }
 
@@ -35,6 +37,9 @@ pub fn blocking_client(uri: &str, cfg: &Config) -> IppClient {
     if let Some(f) = cfg.ignore_tls {
         b = b.ignore_tls_errors(f);
     }
+    for f in &cfg.ignore_tls_then {
+        b = b.ignore_tls_errors(*f);
+    }
     for c in &cfg.ca_certs {
         b = b.ca_cert(c);
     }
@@ -54,6 +59,9 @@ pub fn async_client(uri: &str, cfg: &Config) -> AsyncIppClient {
     let mut b = AsyncIppClient::builder(uri.parse().expect("uri"));
     if let Some(f) = cfg.ignore_tls {
         b = b.ignore_tls_errors(f);
+    }
+    for f in &cfg.ignore_tls_then {
+        b = b.ignore_tls_errors(*f);
     }
     for c in &cfg.ca_certs {
         b = b.ca_cert(c);
